@@ -589,6 +589,28 @@ Definition cat_eqb (a b : cat) : bool :=
   list_eqb (fun x y => String.eqb (fst x) (fst y) && obj_eqb (snd x) (snd y)) (c_objs a) (c_objs b)
   && list_eqb row_eqb (c_rows a) (c_rows b).
 
+(* ---- the guarded statement classes: statements that, wherever exec_ch accepts them on a catalogue without
+   duplicate names, are accepted again right after themselves and change nothing (proofs/MigrateClassProofs.v:
+   guarded_idem).  CREATE .. IF NOT EXISTS, DROP .. IF EXISTS, RENAME .. IF EXISTS, ALTER whose ADD COLUMNs all say
+   IF NOT EXISTS and whose MODIFY ORDER BY commands (if any) all carry the same key, INSERT of a settings row. *)
+Definition cmd_guarded (c : altercmd) : bool := match c with AddColumn ine _ _ => ine | ModifyOrderBy _ => true end.
+Fixpoint alter_keys (cmds : list altercmd) : list (list string) :=
+  match cmds with
+  | [] => []
+  | ModifyOrderBy k :: r => k :: alter_keys r
+  | _ :: r => alter_keys r
+  end.
+Definition same_keys (ks : list (list string)) : bool :=
+  match ks with [] => true | k :: r => forallb (list_eqb String.eqb k) r end.
+Definition guarded (s : stmt) : bool :=
+  match s with
+  | CreateTable ine _ _ _ _ _ | CreateView ine _ _ _ | CreateMV ine _ _ _ _ => ine
+  | DropTable ie _ | RenameTable ie _ _ => ie
+  | AlterTable _ cmds => forallb cmd_guarded cmds && same_keys (alter_keys cmds)
+  | InsertInto _ _ => true
+  | Unclassified => false
+  end.
+
 (* ------------------------------------------------------------------ observations of the real Update *)
 (* what the fake clickhouse.Conn of harness/cmd/migrate records per call: script statements by the id the
    translator gave their classified structure (0 = a statement that is in no stream) *)
